@@ -37,7 +37,10 @@ class KnownFindings:
         if os.path.exists(path) and not os.environ.get("LSPVERIF_NO_KNOWN"):
             with open(path) as f:
                 doc = json.load(f)
-            self.entries = [e for e in doc.get("findings", []) if e["property"] == prop]
+            self.entries = [
+                e for e in doc.get("findings", [])
+                if prop == e["property"] or (isinstance(e["property"], list) and prop in e["property"])
+            ]
             self.fixed = [x for x in doc.get("fixed", []) if f"property={prop} " in x]
         self.hits: Dict[str, int] = {e["id"]: 0 for e in self.entries}
 
